@@ -209,6 +209,27 @@ func gen(r *vu.Rng, i int) []string {
 	if r.Chance(11, 20) {
 		n = 2 + r.Intn(3)
 	}
+	if r.Chance(1, 25) {
+		// a long session on one Framer: the same frame many times (header blocks up to 16 KiB;
+		// rarely enough of them to pass 16 MiB of HEADERS/CONTINUATION payload in total)
+		cnt := 2 + r.Intn(60)
+		size := r.Intn(2000)
+		if r.Chance(1, 12) {
+			cnt, size = 1030+r.Intn(200), 16384
+		}
+		sid := 1 + r.Intn(1000)
+		frag := fmt.Sprintf("g%d.%d", size, r.Intn(251))
+		var inner string
+		switch r.Intn(4) {
+		case 0:
+			inner = fmt.Sprintf("continuation %d 1 %s", sid, frag)
+		case 1:
+			inner = fmt.Sprintf("data %d 0 %s nil", sid, frag)
+		default:
+			inner = fmt.Sprintf("headers %d %s 1 0 0 0 0 %s", sid, b01(r.Bool()), frag)
+		}
+		return append(ops, fmt.Sprintf("rep %d %s", cnt, inner))
+	}
 	for j := 0; j < n; j++ {
 		if n > 1 && j < n-1 && r.Chance(1, 2) {
 			ops = append(ops, genLateReject(r))
@@ -261,6 +282,14 @@ var arity = map[string]int{"data": 5, "headers": 9, "priority": 5, "rst": 3, "se
 type wstate struct {
 	buf bytes.Buffer
 	fr  *http2.Framer
+	rep *repReader // during a `rep` op: ONE reading Framer for all the frames of the op
+}
+
+// repReader is a reading Framer that lives as long as a `rep` op (thousands of frames), so that
+// state a Framer accumulates while reading shows up in the round trip.
+type repReader struct {
+	buf bytes.Buffer
+	fr  *http2.Framer
 }
 
 func newWstate() *wstate {
@@ -277,8 +306,45 @@ func exec(ops []string, o *vu.Out) {
 			o.Op(op, "ok")
 			continue
 		}
+		if strings.HasPrefix(op, "rep ") {
+			o.Op(op, execRep(op, st, o))
+			continue
+		}
 		o.Op(op, vu.Catch(func() string { return execOne(op, st, o) }))
 	}
+}
+
+// execRep: `rep <n> <write-op>` = the same Write call n times on the writing Framer, every frame
+// read back by one long-lived reading Framer. One result line: how many calls gave the same result
+// as the first, the first divergence (if any), and the first result.
+func execRep(op string, st *wstate, o *vu.Out) string {
+	t := strings.SplitN(op, " ", 3)
+	if len(t) != 3 {
+		return "bad-op"
+	}
+	n, err := strconv.Atoi(t[1])
+	if err != nil || n < 1 || n > 100000 || strings.HasPrefix(t[2], "rep") {
+		return "bad-op"
+	}
+	rr := &repReader{}
+	rr.fr = http2.NewFramer(nil, &rr.buf)
+	st.rep = rr
+	defer func() { st.rep = nil }()
+	first, same, div := "", 0, "-"
+	for i := 0; i < n; i++ {
+		r := vu.Catch(func() string { return execOne(t[2], st, o) })
+		if i == 0 {
+			first = r
+		}
+		if r == first {
+			same++
+		} else if div == "-" {
+			div = fmt.Sprintf("%d:[%s]", i, r)
+		}
+	}
+	o.Stat("op:rep")
+	o.StatN("rep:frames", n)
+	return fmt.Sprintf("rep n=%d same=%d div=%s | %s", n, same, div, first)
 }
 
 // expectation of the oracle: what ReadFrame must return for the accepted arguments.
@@ -478,8 +544,15 @@ func execOne(op string, st *wstate, o *vu.Out) string {
 		return showWriteErr(werr)
 	}
 	all := append([]byte{}, buf.Bytes()...)
-	rd0 := bytes.NewReader(all)
-	rfr := http2.NewFramer(nil, rd0) // a fresh reading Framer
+	var rfr *http2.Framer
+	var left func() int
+	if st.rep != nil { // the long-lived reading Framer of a `rep` op
+		st.rep.buf.Write(all)
+		rfr, left = st.rep.fr, st.rep.buf.Len
+	} else {
+		rd0 := bytes.NewReader(all)
+		rfr, left = http2.NewFramer(nil, rd0), rd0.Len // a fresh reading Framer
+	}
 	if pre {
 		if f, err := rfr.ReadFrame(); err != nil || f.Header().Type != http2.FrameHeaders || preLen != 9 {
 			o.Fail("pre-headers", op+": the preparatory HEADERS frame did not read back")
@@ -499,8 +572,8 @@ func execOne(op string, st *wstate, o *vu.Out) string {
 	// ---- property oracle (C06) ----
 	if !ex.skip {
 		want := fmt.Sprintf("ok %s t=%d f=%d s=%d l=%d %s", typeName(ex.typ), uint8(ex.typ), uint8(ex.flags), ex.sid, ex.plen, ex.fields)
-		if rd != want || rd0.Len() != 0 {
-			o.Fail(ex.sig, fmt.Sprintf("%s: accepted by the Write method but ReadFrame gives [%s] (%d bytes left), want [%s]", op, rd, rd0.Len(), want))
+		if rd != want || left() != 0 {
+			o.Fail(ex.sig, fmt.Sprintf("%s: accepted by the Write method but ReadFrame gives [%s] (%d bytes left), want [%s]", op, rd, left(), want))
 		}
 	}
 	if len(written) != 9+ex.plen {
@@ -512,7 +585,7 @@ func execOne(op string, st *wstate, o *vu.Out) string {
 	if len(written)-9 > 16384 {
 		o.Stat("branch:payload>16384")
 	}
-	return fmt.Sprintf("ok %s | %s rest=%d", dig(written), rd, rd0.Len())
+	return fmt.Sprintf("ok %s | %s rest=%d", dig(written), rd, left())
 }
 
 func typeName(t http2.FrameType) string {
